@@ -334,6 +334,9 @@ class KafkaFakeBus:
                 return self
 
             async def __anext__(self):
+                if not self.started:
+                    # like aiokafka: a consumer that was never started cannot be iterated
+                    raise RuntimeError("fake aiokafka: consumer iterated before start() completed")
                 if bus.delivering and getattr(self, "_in", False):
                     self._in = False
                     bus.delivering -= 1
@@ -358,11 +361,18 @@ class KafkaFakeBus:
         class FakeProducer:
             def __init__(self, value_serializer=None, **kw):
                 self.ser = value_serializer or (lambda v: v)
+                self.started = False
 
             async def start(self):
-                await asyncio.sleep(0)
+                # connecting takes a few loop iterations
+                for _ in range(3):
+                    await asyncio.sleep(0)
+                self.started = True
 
             async def send(self, topic, value):
+                if not self.started:
+                    # like aiokafka: send() on a producer whose start() has not completed fails
+                    raise RuntimeError("fake aiokafka: send() before start() completed")
                 data = self.ser(value)
                 bus.trace.log("produce", topic=topic, msg=msg_repr(value),
                               real=bus.loop.now_ns() if bus.loop else None, step=bus.loop.step if bus.loop else None)
